@@ -16,6 +16,7 @@ import (
 
 	"github.com/kubewharf/kubebrain/pkg/backend"
 	"github.com/kubewharf/kubebrain/pkg/server"
+	"github.com/kubewharf/kubebrain/pkg/storage"
 
 	"verif/internal/harness"
 )
@@ -47,37 +48,7 @@ func runC20Tour(c *harness.Case) {
 		steps = append(steps, s)
 		fmt.Fprintf(os.Stderr, "C20 tour case %d: %s\n", c.Index, s)
 	}
-	type fullNode struct {
-		n    *harness.Node
-		g    *grpcNode
-		addr string
-		ln   net.Listener
-		hs   *http.Server
-	}
-	mk := func(name string) (*fullNode, bool) {
-		ln, lerr := net.Listen("tcp", "127.0.0.1:0")
-		if lerr != nil {
-			c.Inconclusive("listen: " + lerr.Error())
-			return nil, false
-		}
-		fn := &fullNode{addr: ln.Addr().String(), ln: ln}
-		fn.n = harness.NewNode(harness.NodeOpts{KV: kv, SkipInit: true, Metrics: rm, TrackNotify: name == "leader",
-			Config: backend.Config{Identity: fn.addr, EnableEtcdCompatibility: true, WatchCacheSize: 256}})
-		srv := server.NewServer(fn.n.B, rm, server.Config{}) // starts the real Campaign
-		mux := http.NewServeMux()
-		for p, h := range srv.GetInfoHttpHandlers() {
-			mux.Handle(p, h)
-		}
-		fn.hs = &http.Server{Handler: mux}
-		go fn.hs.Serve(ln)
-		g, gerr := newGRPCNodeFor(srv.RegisterClient, rm)
-		if gerr != nil {
-			c.Inconclusive("grpc: " + gerr.Error())
-			return nil, false
-		}
-		fn.g = g
-		return fn, true
-	}
+	mk := func(name string) (*fullNode, bool) { return newFullNode(c, kv, rm, name == "leader") }
 	A, ok := mk("leader")
 	if !ok {
 		return
@@ -86,17 +57,7 @@ func runC20Tour(c *harness.Case) {
 	ctx := context.Background()
 	P := harness.Prefix
 	// wait until A leads (its Campaign creates the lock at once)
-	deadline := time.Now().Add(40 * time.Second)
-	led := false
-	for time.Now().Before(deadline) {
-		if r, cerr := A.g.brainGRPC.Create(ctx, &pb.CreateRequest{Key: []byte(P + "/tour/first"), Value: []byte("v")}); cerr == nil && r.Succeeded {
-			led = true
-			A.n.Start = r.Header.GetRevision() - 1 // the election callback initialised the revision; deposits are tracked from here
-			break
-		}
-		time.Sleep(5 * time.Millisecond)
-	}
-	if !led {
+	if A.waitLeads(P+"/tour/first") == nil {
 		c.Inconclusive("the first node did not become leader within the watchdog")
 		return
 	}
@@ -317,4 +278,52 @@ func runC20Tour(c *harness.Case) {
 	c.Stat("metric_call_site_tours", 1)
 	c.Fingerprint(true, "tour", c.Index)
 	c.R.Sample = map[string]interface{}{"tour_steps": steps}
+}
+
+// fullNode is a complete kubebrain node as cmd/option.Run wires it: backend, server.NewServer (real Campaign, peer
+// HTTP endpoint, revision syncer), gRPC with the metrics client's interceptors.
+type fullNode struct {
+	n    *harness.Node
+	g    *grpcNode
+	addr string
+	ln   net.Listener
+	hs   *http.Server
+}
+
+func newFullNode(c *harness.Case, kv storage.KvStorage, rm *harness.RecMetrics, track bool) (*fullNode, bool) {
+	ln, lerr := net.Listen("tcp", "127.0.0.1:0")
+	if lerr != nil {
+		c.Inconclusive("listen: " + lerr.Error())
+		return nil, false
+	}
+	fn := &fullNode{addr: ln.Addr().String(), ln: ln}
+	fn.n = harness.NewNode(harness.NodeOpts{KV: kv, SkipInit: true, Metrics: rm, TrackNotify: track,
+		Config: backend.Config{Identity: fn.addr, EnableEtcdCompatibility: true, WatchCacheSize: 256}})
+	srv := server.NewServer(fn.n.B, rm, server.Config{}) // starts the real Campaign
+	mux := http.NewServeMux()
+	for p, h := range srv.GetInfoHttpHandlers() {
+		mux.Handle(p, h)
+	}
+	fn.hs = &http.Server{Handler: mux}
+	go fn.hs.Serve(ln)
+	g, gerr := newGRPCNodeFor(srv.RegisterClient, rm)
+	if gerr != nil {
+		c.Inconclusive("grpc: " + gerr.Error())
+		return nil, false
+	}
+	fn.g = g
+	return fn, true
+}
+
+// waitLeads issues creates until the node accepts one (its Campaign has won); returns the response.
+func (fn *fullNode) waitLeads(key string) *pb.CreateResponse {
+	deadline := time.Now().Add(40 * time.Second)
+	for time.Now().Before(deadline) {
+		if r, cerr := fn.g.brainGRPC.Create(context.Background(), &pb.CreateRequest{Key: []byte(key), Value: []byte("v")}); cerr == nil && r.Succeeded {
+			fn.n.Start = r.Header.GetRevision() - 1 // the election callback initialised the revision; deposits are tracked from here
+			return r
+		}
+		time.Sleep(5 * time.Millisecond)
+	}
+	return nil
 }
